@@ -12,7 +12,7 @@ THEOREM = ("Ufo2ft.C02.C02_mixed / C02_render / C02_render_skip / C02_mixed_skip
            "dropImpliedOnCurves: C02_drop_render / C02_drop_idempotent / C02_drop_round / C02_drop_round_bound / C02_drop_spec / "
            "C02_drop_joint_compatible / C02_drop_joint_subset / C02_drop_joint_maximal / C02_drop_joint_instance / C02_drop_joint_spec; "
            "glyf flag post-processing (Props/C02Flags.lean): C02_flags_simple_spec / C02_flags_simple_bits / C02_flags_simple_oncurve / C02_flags_simple_coords / "
-           "C02_flags_simple_absent / C02_flags_simple_value / C02_flags_simple_idempotent / C02_flags_spec_oncurve / C02_flags_slip_witness / C02_flags_step_mask / C02_flags_composite_refs_partial; TOTALITY (Props/Total*.lean): C02_preprocess_ok / C02_mixed_total / C02_render_total / C02_render_skip_total - the pre-processing chain returns a result on every well-formed closed glyph set (wfCert)")
+           "C02_flags_simple_absent / C02_flags_simple_value / C02_flags_simple_idempotent / C02_flags_spec_oncurve / C02_flags_slip_witness / C02_flags_step_mask / C02_flags_composite_refs_partial / C02_flags_auto_mask / C02_flags_loop_rest / C02_flags_step_first / C02_flags_composite_spec (the model meets holdsCompositeFlags for ALL inputs: whole loop + autoUseMyMetrics fallback); TOTALITY (Props/Total*.lean): C02_preprocess_ok / C02_mixed_total / C02_render_total / C02_render_skip_total - the pre-processing chain returns a result on every well-formed closed glyph set (wfCert)")
 N = {"quick": 160, "thorough": 3000}
 RULE = ("random fonts (line / quadratic contours incl. contours starting off-curve, open contours; component graphs depth<=4 with "
         "F2Dot14-exact matrices incl. mirrors/shears, half-integer offsets; mixed glyphs; shared bases/diamonds) x {convertCubics, "
@@ -66,8 +66,8 @@ ASSUMED = ["cu2qu (curve_to_quadratic) is external: its error bound is measured 
            "glyph-lib stream: InstructionCompiler._set_simple_flags / _set_composite_flags / autoUseMyMetrics are modelled (Model/C02Flags.lean) on the flag bytes / words the "
            "model's pen output has (quadratic glyphs: 0/1; components: 0x4) and compared with the compiled font; hmtx advances are an input taken from the compiled font; lib values "
            "are booleans (Python truthiness of other values is not modelled); an objectLibs entry without either key, a glyph missing from the UFO (.notdef) and "
-           "TrueType instructions (public.truetype.instructions, hash check) are not generated; for composites only the reference part is proved (C02_flags_composite_refs_partial), the "
-           "flag-mask clauses of holdsCompositeFlags are evaluated on every compiled composite, not proved; the per-component ROUND_XY_TO_GRID / USE_MY_METRICS VALUES have no declarative "
+           "TrueType instructions (public.truetype.instructions, hash check) are not generated; for composites the model meets holdsCompositeFlags on all inputs (C02_flags_composite_spec: references, flag masks, OVERLAP_COMPOUND value, count-mismatch clause; "
+           "loop and autoUseMyMetrics fallback), and the predicate is also evaluated on every compiled composite; the per-component ROUND_XY_TO_GRID / USE_MY_METRICS VALUES have no declarative "
            "clause (model/font comparison only); glyf-v1 (allQuadratic=False, cubic bit) is not generated - the simple-glyph theorems hold for any flag bytes, including the cubic bit"]
 
 def _gen_base(rng, n, mode):
@@ -795,4 +795,4 @@ LEVEL_NOTE = ("Trusted: Lean kernel + standard axioms; correspondence harness; g
               "Proved for all flag lists and lib values (Props/C02Flags.lean): the model meets holdsSimpleFlags; every bit of every point's flag byte except 0x40 of the first is the pen's "
               "(so on-curve and cubic bits), coordinates / contour ends / counts untouched; key absent or no contours = identity; key present = bit 6 of the first flag is the value; idempotent; any output "
               "accepted by the predicate keeps all on-curve / cubic bits; kernel-checked negative witness for `first & flag` instead of `first & ~flag` (the point turns off-curve, predicate false).  "
-              "Composites: only that every component keeps base, offset and 2x2 and the count (C02_flags_composite_refs_partial) is proved; the flag-mask clauses are checked per font, not proved.  A seeded change that clears the first point's on-curve bit when the key is False fails with a failing input on seeds 0..4.")
+              "Composites: the model meets holdsCompositeFlags for every component list, lib content, hmtx advances and both autoUseMyMetrics settings (C02_flags_composite_spec, by induction over the component list with the step lemmas C02_flags_step_first / C02_flags_loop_rest and C02_flags_auto_mask for the fallback): references kept, flag words differ at most in 0x4 / 0x200 and 0x400 on the first component, 0x400 of the first = lib value when present and counts equal, count mismatch = only 0x200 may differ (nothing with auto off); the per-component VALUES of 0x4 / 0x200 remain model/font comparison only.  A seeded change that clears the first point's on-curve bit when the key is False fails with a failing input on seeds 0..4.")
